@@ -4,6 +4,7 @@ import (
 	"bufio"
 	"context"
 	"fmt"
+	"strconv"
 	"time"
 
 	"github.com/valyala/fastjson"
@@ -159,7 +160,8 @@ func getOctoSQLValue(t octosql.Type, value *fastjson.Value) (out octosql.Value, 
 	case octosql.TypeIDFloat:
 		if value.Type() == fastjson.TypeNumber {
 			// The tokenizer accepts any run of number characters, only the conversion validates it.
-			if v, err := value.Float64(); err == nil {
+			// fastjson's own conversion is inexact for numbers written with an exponent, so the number's text is parsed.
+			if v, err := strconv.ParseFloat(string(value.MarshalTo(nil)), 64); err == nil {
 				return octosql.NewFloat(v), true
 			}
 		}
